@@ -19,10 +19,21 @@
     status_has_witness, validateCounter_meaning, validateValue_meaning, tag_status_first_invalid
                                    the recorded status names a defect the event really has (first invalid tag wins)
     accepted_effects               accepted  ⇒  one ok record, then warnings only, then the contribution
+    applyEvent_row, applyAll_row(_from_empty), applyAllH_row
+                                   the weighting lifted through the store lookup: for every event list and every row address of a
+                                   user metric, count/sum = old + Σ rowDelta (accepted events addressed to the row only)
+    rejected_status_store, rejected_primary_record, accepted_ok_record, accepted_no_error_status,
+    applyAll_error_status, applyAllH_error_status
+                                   status rows at store level: one record per rejected event in the right shard(s), one ok record
+                                   per accepted event, error rows count exactly the rejected events over every sequence
+    addr2_eq                       the second shard's copy lands in the Tail of the row without string top
+    zeroWeight_counter_absent/present   histogram with all-zero weights: accepted; contributes nothing / creates an empty row
+    rejected_invisible_H, effCfg_hash_shard   tags-hash sharding (hash observed) behaves as a fixed shard
     counter_semantics              absent counter ⇒ Δcount = #values + Σ weights, Δsum = Σ v·w; present counter c ⇒ Δcount = c and
                                    Δsum/Δcount = Σ v·w / total (average preserved); mvApplyValues_delta, uniques_as_values
 -/
 import SH.Model.Ingest
+import SH.Lemmas.IngestStore
 import Mathlib.Tactic.Ring
 import Mathlib.Tactic.FieldSimp
 import Mathlib.Tactic.Linarith
@@ -935,6 +946,1155 @@ example :
     ((applyEvent exCfg [] exEvent).filter keep).map (fun it => it.tail.sum) = [36, 36] := by decide +kernel
 /-- … and the rejected variant creates none -/
 example : (applyEvent exCfg [] { exEvent with values := [ofBits 0x7ff8000000000000] }).filter keep = [] := by decide +kernel
+
+
+
+
+/-! ### lifting the weighting through the store lookup -/
+
+/-- every readable count is non-negative -/
+def NN (st : Store) : Prop := ∀ a : Addr, 0 ≤ (getMV st a).cnt
+
+theorem NN_nil : NN [] := by intro a; simp [getMV]
+
+/-- `f` adds `dc` to the count and `ds` to the sum of any row with a non-negative count -/
+def Adds (f : MV → MV) (dc ds : Rat) : Prop :=
+  ∀ mv : MV, 0 ≤ mv.cnt → (f mv).cnt = mv.cnt + dc ∧ (f mv).sum = mv.sum + ds
+
+theorem storeUpd_NN (sh : Nat) (m : Int) (ts : Nat) (kt : KeyTags) (t : Int × Str) (f : MV → MV) (st : Store)
+    (hf : ∀ mv : MV, 0 ≤ mv.cnt → 0 ≤ (f mv).cnt) (h : NN st) : NN (storeUpd sh m ts kt t f st) := by
+  intro a
+  by_cases ha : a = ⟨sh, m, ts, kt, normTop t⟩
+  · subst ha; rw [getMV_storeUpd_same]; exact hf _ (h _)
+  · rw [getMV_storeUpd_other _ _ _ _ _ _ _ _ ha]; exact h a
+
+/-- where a status record lands -/
+def statusAddr (cfg : Cfg) (sh : Nat) (m : Int) (res t : Nat) (tags : List Int) (str : Str) : Addr :=
+  ⟨sh, m, (resolveTs cfg.now res t).1, tagsOfList 0 tags, normTop (statusTop cfg.mapping str)⟩
+
+theorem addStatus_get (cfg : Cfg) (st : Store) (sh : Nat) (m : Int) (res t : Nat) (tags : List Int) (str : Str) (drop : Nat) (a : Addr) :
+    getMV (addStatus cfg st sh m res t tags str drop) a =
+      if ¬ ((resolveTs cfg.now res t).1 < drop) ∧ a = statusAddr cfg sh m res t tags str then addCount 1 (getMV st a) else getMV st a := by
+  unfold addStatus statusAddr
+  simp only
+  by_cases hd : (resolveTs cfg.now res t).1 < drop
+  · simp [hd]
+  · simp only [hd, if_false, not_false_eq_true, true_and]
+    by_cases ha : a = ⟨sh, m, (resolveTs cfg.now res t).1, tagsOfList 0 tags, normTop (statusTop cfg.mapping str)⟩
+    · subst ha; simp [getMV_storeUpd_same]
+    · simp [ha, getMV_storeUpd_other _ _ _ _ _ _ _ _ ha]
+
+theorem addStatus_NN (cfg : Cfg) (st : Store) (sh : Nat) (m : Int) (res t : Nat) (tags : List Int) (str : Str) (drop : Nat)
+    (h : NN st) : NN (addStatus cfg st sh m res t tags str drop) := by
+  unfold addStatus; simp only
+  split
+  · exact h
+  · exact storeUpd_NN _ _ _ _ _ _ _ (fun mv hmv => addCount_nonneg 1 mv hmv) h
+
+/-- a status record never touches a row of another metric -/
+theorem addStatus_get_other (cfg : Cfg) (st : Store) (sh : Nat) (m : Int) (res t : Nat) (tags : List Int) (str : Str) (drop : Nat) (a : Addr)
+    (hm : a.metric ≠ m) : getMV (addStatus cfg st sh m res t tags str drop) a = getMV st a := by
+  rw [addStatus_get]
+  have : a ≠ statusAddr cfg sh m res t tags str := by intro h; apply hm; rw [h]; rfl
+  simp [this]
+
+/-- the address Shard.Apply* writes to for the key `k` -/
+def applyAddr (cfg : Cfg) (k : EvKey) (sh : Nat) : Addr :=
+  ⟨sh, k.metric, (resolveTs cfg.now cfg.metric.res k.ts).1, k.noTop, normTop k.top⟩
+
+def applyDropped (cfg : Cfg) (k : EvKey) (drop : Nat) : Prop := (resolveTs cfg.now cfg.metric.res k.ts).1 < drop
+
+instance (cfg : Cfg) (k : EvKey) (drop : Nat) : Decidable (applyDropped cfg k drop) := by unfold applyDropped; infer_instance
+
+/-- the key after the shard has mutated it in place -/
+def keyAfter (cfg : Cfg) (k : EvKey) : EvKey := { k with ts := (resolveTs cfg.now cfg.metric.res k.ts).1, ktags := k.noTop }
+
+theorem shardApply_key (cfg : Cfg) (st : Store) (k : EvKey) (sh drop : Nat) (f : MV → MV) :
+    (shardApply cfg st k sh drop f).2 = keyAfter cfg k := by
+  unfold shardApply keyAfter; simp only; split <;> rfl
+
+theorem shardApply_get (cfg : Cfg) (st : Store) (k : EvKey) (sh drop : Nat) (f : MV → MV) (a : Addr)
+    (ha : a.metric ≠ statusMetricID) :
+    getMV (shardApply cfg st k sh drop f).1 a =
+      if ¬ applyDropped cfg k drop ∧ a = applyAddr cfg k sh then f (getMV st a) else getMV st a := by
+  unfold shardApply applyDropped applyAddr
+  simp only
+  by_cases hd : (resolveTs cfg.now cfg.metric.res k.ts).1 < drop
+  · simp [hd]
+  · simp only [hd, if_false, not_false_eq_true, true_and]
+    have core : getMV (storeUpd sh k.metric (resolveTs cfg.now cfg.metric.res k.ts).1 k.noTop k.top f st) a =
+        if a = ⟨sh, k.metric, (resolveTs cfg.now cfg.metric.res k.ts).1, k.noTop, normTop k.top⟩ then f (getMV st a) else getMV st a := by
+      by_cases hq : a = ⟨sh, k.metric, (resolveTs cfg.now cfg.metric.res k.ts).1, k.noTop, normTop k.top⟩
+      · subst hq; simp [getMV_storeUpd_same]
+      · simp [hq, getMV_storeUpd_other _ _ _ _ _ _ _ _ hq]
+    split
+    · rw [addStatus_get_other _ _ _ _ _ _ _ _ _ _ ha]; exact core
+    · exact core
+
+theorem shardApply_NN (cfg : Cfg) (st : Store) (k : EvKey) (sh drop : Nat) (f : MV → MV)
+    (hf : ∀ mv : MV, 0 ≤ mv.cnt → 0 ≤ (f mv).cnt) (h : NN st) : NN (shardApply cfg st k sh drop f).1 := by
+  unfold shardApply; simp only
+  split
+  · exact h
+  · split
+    · exact addStatus_NN _ _ _ _ _ _ _ _ _ (storeUpd_NN _ _ _ _ _ _ _ hf h)
+    · exact storeUpd_NN _ _ _ _ _ _ _ hf h
+
+
+
+/-- the shard call ApplyMetric makes for the contribution of an event -/
+def payEffect (e : Event) (sh drop : Nat) : Effect :=
+  if e.uniq.length ≠ 0 then .unique sh drop e.uniq e.counter
+  else if e.hist.length + e.values.length ≠ 0 then .values sh drop e.hist e.values e.counter
+  else .counter sh drop e.counter
+
+theorem payload_eq (cfg : Cfg) (e : Event) : payload cfg e = both cfg (payEffect e) := by
+  unfold payload payEffect
+  split
+  · rfl
+  · split <;> rfl
+
+def uniqPairs (hashes : List Int) : List (Rat × Rat) := hashes.map (fun (h : Int) => ((h : Rat), (1 : Rat)))
+
+/-- what the row update of an event is, `none` when the shard returns before touching anything (`count <= 0`) -/
+def payFn (pct : Bool) (e : Event) : Option (MV → MV) :=
+  if e.uniq.length ≠ 0 then
+    (if effCount e.counter.toRat (e.uniq.length : Rat) ≤ 0 then none
+     else some (mvApplyUnique e.uniq (effCount e.counter.toRat (e.uniq.length : Rat))))
+  else if e.hist.length + e.values.length ≠ 0 then
+    (if effCount e.counter.toRat (histTotal e.values e.hist) ≤ 0 then none
+     else some (mvApplyValues pct (valuePairs e.values e.hist) (effCount e.counter.toRat (histTotal e.values e.hist)) (histTotal e.values e.hist)))
+  else (if e.counter.toRat ≤ 0 then none else some (addCount e.counter.toRat))
+
+theorem runEffect_pay (cfg : Cfg) (s : Store × EvKey) (e : Event) (sh drop : Nat) :
+    runEffect cfg s (payEffect e sh drop) =
+      match payFn cfg.metric.pct e with
+      | none => s
+      | some f => shardApply cfg s.1 s.2 sh drop f := by
+  unfold payEffect payFn
+  split
+  · simp only [runEffect]; split <;> rfl
+  · split
+    · simp only [runEffect]; split <;> rfl
+    · simp only [runEffect]; split <;> rfl
+
+/-- **What one accepted event adds to its row**: (Δcount, Δsum).
+    Δcount is the counter if present, else the number of uniques / the number of values plus the histogram weights;
+    Δsum is Σ value·weight scaled by Δcount/total (0 for a pure counter event). -/
+def evDelta (e : Event) : Rat × Rat :=
+  if e.uniq.length ≠ 0 then
+    (if effCount e.counter.toRat (e.uniq.length : Rat) ≤ 0 then (0, 0)
+     else (effCount e.counter.toRat (e.uniq.length : Rat),
+           wsum (uniqPairs e.uniq) * effCount e.counter.toRat (e.uniq.length : Rat) / (e.uniq.length : Rat)))
+  else if e.hist.length + e.values.length ≠ 0 then
+    (if effCount e.counter.toRat (histTotal e.values e.hist) ≤ 0 then (0, 0)
+     else if histTotal e.values e.hist ≤ 0 then (0, 0)
+     else (effCount e.counter.toRat (histTotal e.values e.hist),
+           wsum (valuePairs e.values e.hist) * effCount e.counter.toRat (histTotal e.values e.hist) / histTotal e.values e.hist))
+  else (if e.counter.toRat ≤ 0 then (0, 0) else (e.counter.toRat, 0))
+
+theorem evDelta_nonneg (e : Event) : 0 ≤ (evDelta e).1 := by
+  unfold evDelta
+  split
+  · split
+    · simp
+    · rename_i h; simp; linarith
+  · split
+    · split
+      · simp
+      · split
+        · simp
+        · rename_i h _; simp; linarith
+    · split
+      · simp
+      · rename_i h; simp; linarith
+
+theorem valuePairs_ne_nil (values : List XR) (hist : List (XR × XR)) (h : hist.length + values.length ≠ 0) :
+    valuePairs values hist ≠ [] := by
+  unfold valuePairs
+  cases values with
+  | cons _ _ => simp
+  | nil =>
+    cases hist with
+    | nil => simp at h
+    | cons _ _ => simp
+
+theorem addCount_adds (c : Rat) (hc : 0 < c) : Adds (addCount c) c 0 := by
+  intro mv hmv
+  refine ⟨addCount_cnt c mv hc hmv, ?_⟩
+  unfold addCount; split <;> [skip; split] <;> simp
+
+/-- the row update of an event adds exactly `evDelta` -/
+theorem payFn_adds (pct : Bool) (e : Event) :
+    match payFn pct e with
+    | none => evDelta e = (0, 0)
+    | some f => Adds f (evDelta e).1 (evDelta e).2 := by
+  unfold payFn evDelta
+  by_cases hu : e.uniq.length ≠ 0
+  · simp only [if_pos hu]
+    by_cases hc : effCount e.counter.toRat (e.uniq.length : Rat) ≤ 0
+    · simp only [if_pos hc]
+    · simp only [if_neg hc]
+      intro mv hmv
+      have hne : e.uniq ≠ [] := by intro h; apply hu; simp [h]
+      have hn : (0 : Rat) < (e.uniq.length : Rat) := by exact_mod_cast Nat.pos_of_ne_zero hu
+      have hv : uniqPairs e.uniq ≠ [] := by
+        unfold uniqPairs; cases hq : e.uniq with
+        | nil => exact absurd hq hne
+        | cons _ _ => simp
+      obtain ⟨u1, u2⟩ := uniques_as_values e.uniq (effCount e.counter.toRat (e.uniq.length : Rat)) mv hne
+      obtain ⟨d1, d2⟩ := mvApplyValues_delta false (uniqPairs e.uniq) (effCount e.counter.toRat (e.uniq.length : Rat))
+        (e.uniq.length : Rat) mv hmv (by linarith) hn hv
+      exact ⟨u1.trans d1, u2.trans d2⟩
+  · simp only [if_neg hu]
+    by_cases hv : e.hist.length + e.values.length ≠ 0
+    · simp only [if_pos hv]
+      by_cases hc : effCount e.counter.toRat (histTotal e.values e.hist) ≤ 0
+      · simp only [if_pos hc]
+      · simp only [if_neg hc]
+        by_cases ht : histTotal e.values e.hist ≤ 0
+        · simp only [if_pos ht]
+          intro mv _
+          simp [mvApplyValues, ht]
+        · simp only [if_neg ht]
+          intro mv hmv
+          exact mvApplyValues_delta pct _ _ _ mv hmv (by linarith) (by linarith) (valuePairs_ne_nil _ _ hv)
+    · simp only [if_neg hv]
+      by_cases hc : e.counter.toRat ≤ 0
+      · simp only [if_pos hc]
+      · simp only [if_neg hc]
+        exact addCount_adds _ (by linarith)
+
+
+
+theorem mvMerge_nonneg (s o : MV) (h : 0 ≤ s.cnt) : 0 ≤ (mvMerge s o).cnt := by
+  unfold mvMerge; simp only; split <;> exact addCount_nonneg _ _ h
+
+theorem mvApplyValues_nonneg (pct : Bool) (vals : List (Rat × Rat)) (count total : Rat) (mv : MV) (h : 0 ≤ mv.cnt) :
+    0 ≤ (mvApplyValues pct vals count total mv).cnt := by
+  unfold mvApplyValues
+  split
+  · exact h
+  · simp only; split <;> exact mvMerge_nonneg _ _ h
+
+theorem mvApplyUnique_nonneg (hashes : List Int) (count : Rat) (mv : MV) (h : 0 ≤ mv.cnt) :
+    0 ≤ (mvApplyUnique hashes count mv).cnt := by
+  unfold mvApplyUnique
+  split
+  · exact h
+  · exact mvMerge_nonneg _ _ h
+
+/-- every shard call keeps all counts non-negative -/
+theorem runEffect_NN (cfg : Cfg) (s : Store × EvKey) (x : Effect) (h : NN s.1) : NN (runEffect cfg s x).1 := by
+  cases x with
+  | status sh m res tags str drop => exact addStatus_NN _ _ _ _ _ _ _ _ _ h
+  | counter sh drop c =>
+    simp only [runEffect]; split
+    · exact h
+    · exact shardApply_NN _ _ _ _ _ _ (fun mv hmv => addCount_nonneg _ mv hmv) h
+  | values sh drop hist values c =>
+    simp only [runEffect]; split
+    · exact h
+    · exact shardApply_NN _ _ _ _ _ _ (fun mv hmv => mvApplyValues_nonneg _ _ _ _ mv hmv) h
+  | unique sh drop hashes c =>
+    simp only [runEffect]; split
+    · exact h
+    · exact shardApply_NN _ _ _ _ _ _ (fun mv hmv => mvApplyUnique_nonneg _ _ mv hmv) h
+
+theorem foldl_NN (cfg : Cfg) (effs : List Effect) (s : Store × EvKey) (h : NN s.1) : NN (effs.foldl (runEffect cfg) s).1 := by
+  induction effs generalizing s with
+  | nil => exact h
+  | cons x xs ih => exact ih _ (runEffect_NN cfg s x h)
+
+/-- **Counts never go negative**, whatever the events. -/
+theorem applyEvent_NN (cfg : Cfg) (st : Store) (e : Event) (h : NN st) : NN (applyEvent cfg st e) := by
+  unfold applyEvent; exact foldl_NN cfg _ _ h
+
+/-- an effect that is a status record of one of the two built-in status metrics -/
+def IsBuiltinStatus (x : Effect) : Prop :=
+  ∃ sh m res tags str drop, x = .status sh m res tags str drop ∧ (m = statusMetricID ∨ m = noShardMetricID)
+
+def UserAddr (a : Addr) : Prop := a.metric ≠ statusMetricID ∧ a.metric ≠ noShardMetricID
+
+/-- status records leave every row of every other metric, and the event key, untouched -/
+theorem foldl_status_get (cfg : Cfg) (effs : List Effect) (s : Store × EvKey) (a : Addr) (ha : UserAddr a)
+    (h : ∀ x ∈ effs, IsBuiltinStatus x) :
+    getMV (effs.foldl (runEffect cfg) s).1 a = getMV s.1 a ∧ (effs.foldl (runEffect cfg) s).2 = s.2 := by
+  induction effs generalizing s with
+  | nil => exact ⟨rfl, rfl⟩
+  | cons x xs ih =>
+    obtain ⟨sh, m, res, tags, str, drop, rfl, hm⟩ := h _ List.mem_cons_self
+    simp only [List.foldl_cons]
+    obtain ⟨i1, i2⟩ := ih (runEffect cfg s (.status sh m res tags str drop)) (fun y hy => h y (List.mem_cons_of_mem _ hy))
+    refine ⟨?_, ?_⟩
+    · rw [i1]; simp only [runEffect]
+      apply addStatus_get_other
+      rcases hm with rfl | rfl
+      · exact ha.1
+      · exact ha.2
+    · rw [i2]; rfl
+
+theorem foldl_status_key (cfg : Cfg) (effs : List Effect) (s : Store × EvKey) (h : ∀ x ∈ effs, IsBuiltinStatus x) :
+    (effs.foldl (runEffect cfg) s).2 = s.2 := by
+  induction effs generalizing s with
+  | nil => rfl
+  | cons x xs ih =>
+    obtain ⟨sh, m, res, tags, str, drop, rfl, _⟩ := h _ List.mem_cons_self
+    simp only [List.foldl_cons]
+    rw [ih _ (fun y hy => h y (List.mem_cons_of_mem _ hy))]; rfl
+
+theorem statusBoth_builtin (cfg : Cfg) (env m c k : Int) (s : Str) : ∀ x ∈ statusBoth cfg env m c k s, IsBuiltinStatus x := by
+  intro x hx
+  unfold statusBoth both at hx
+  split at hx <;> simp at hx <;> rcases hx with rfl | rfl <;> exact ⟨_, _, _, _, _, _, rfl, Or.inl rfl⟩
+
+theorem warnings_builtin (cfg : Cfg) (h : Hdr) (env m : Int) : ∀ x ∈ warnings cfg h env m, IsBuiltinStatus x := by
+  intro x hx
+  unfold warnings at hx
+  simp only [List.mem_append] at hx
+  rcases hx with (((hx | hx) | hx) | hx) | hx <;> split at hx <;> first | exact statusBoth_builtin _ _ _ _ _ _ x hx | cases hx
+
+theorem rejectionRecords_builtin (cfg : Cfg) (e : Event) (env k : Int) (s : Str) :
+    ∀ x ∈ rejectionRecords cfg e env k s, IsBuiltinStatus x := by
+  intro x hx
+  unfold rejectionRecords at hx
+  split at hx
+  · exact statusBoth_builtin _ _ _ _ _ _ x hx
+  · simp at hx; subst hx; exact ⟨_, _, _, _, _, _, rfl, Or.inr rfl⟩
+
+/-! #### the addresses an accepted event writes to -/
+
+/-- `&h.Key` as ApplyMetric hands it to the first shard -/
+def evKey (cfg : Cfg) (e : Event) : EvKey :=
+  { metric := keyMetric cfg e, ts := eventTs cfg e, ktags := (header cfg.mapping e).ktags }
+
+/-- row of the first shard: the event's tags without the string-top tag, string-top value selects Top entry / Tail -/
+def addr1 (cfg : Cfg) (e : Event) : Addr := applyAddr cfg (evKey cfg e) (shard1 cfg)
+/-- row of the second shard: computed from the key the first shard left behind -/
+def addr2 (cfg : Cfg) (e : Event) (s2 : Nat) : Addr := applyAddr cfg (keyAfter cfg (evKey cfg e)) s2
+
+/-- how many times (0, 1 or 2) the event's contribution is written to address `a` -/
+def hits (cfg : Cfg) (e : Event) (a : Addr) : Rat :=
+  (if a = addr1 cfg e then 1 else 0) +
+  (match shard2 cfg with
+    | some s2 => if ¬ applyDropped cfg (keyAfter cfg (evKey cfg e)) cfg.metric.shard2Ts ∧ a = addr2 cfg e s2 then 1 else 0
+    | none => 0)
+
+/-- (Δcount, Δsum) of the row at `a` caused by one event: nothing for a rejected event, `evDelta` for every shard
+    copy of an accepted one -/
+def rowDelta (cfg : Cfg) (e : Event) (a : Addr) : Rat × Rat :=
+  if verdict cfg e ≠ 0 then (0, 0) else (hits cfg e a * (evDelta e).1, hits cfg e a * (evDelta e).2)
+
+theorem not_dropped_zero (cfg : Cfg) (k : EvKey) : ¬ applyDropped cfg k 0 := by unfold applyDropped; omega
+
+theorem both_cases (cfg : Cfg) (f : Nat → Nat → Effect) :
+    (shard2 cfg = none ∧ both cfg f = [f (shard1 cfg) 0]) ∨
+    (∃ s2, shard2 cfg = some s2 ∧ s2 ≠ shard1 cfg ∧ both cfg f = [f (shard1 cfg) 0, f s2 cfg.metric.shard2Ts]) := by
+  rcases both_length cfg f with ⟨h1, h2⟩ | ⟨s2, h1, h2, h3⟩
+  · exact Or.inl ⟨h2, h1⟩
+  · exact Or.inr ⟨s2, h1, h2, h3⟩
+
+theorem two_step (f : MV → MV) (dc ds : Rat) (hp : Adds f dc ds) (x0 : MV) (hx : 0 ≤ x0.cnt)
+    (b1 b2 : Prop) [Decidable b1] [Decidable b2] (hex : ¬ (b1 ∧ b2)) :
+    (if b2 then f (if b1 then f x0 else x0) else (if b1 then f x0 else x0)).cnt =
+        x0.cnt + ((if b1 then 1 else 0) + (if b2 then 1 else 0)) * dc ∧
+    (if b2 then f (if b1 then f x0 else x0) else (if b1 then f x0 else x0)).sum =
+        x0.sum + ((if b1 then 1 else 0) + (if b2 then 1 else 0)) * ds := by
+  obtain ⟨c, s⟩ := hp x0 hx
+  by_cases h1 : b1
+  · have h2 : ¬ b2 := fun h => hex ⟨h1, h⟩
+    simp [h1, h2, c, s]
+  · by_cases h2 : b2 <;> simp [h1, h2, c, s]
+
+/-- the contribution part of ApplyMetric, read at a user address -/
+theorem payload_get (cfg : Cfg) (e : Event) (st : Store) (a : Addr) (ha : UserAddr a) (hnn : NN st) :
+    (getMV ((payload cfg e).foldl (runEffect cfg) (st, evKey cfg e)).1 a).cnt = (getMV st a).cnt + hits cfg e a * (evDelta e).1 ∧
+    (getMV ((payload cfg e).foldl (runEffect cfg) (st, evKey cfg e)).1 a).sum = (getMV st a).sum + hits cfg e a * (evDelta e).2 := by
+  rw [payload_eq]
+  have hp := payFn_adds cfg.metric.pct e
+  unfold hits
+  cases hf : payFn cfg.metric.pct e with
+  | none =>
+    rw [hf] at hp
+    have hid : ∀ s sh drop, runEffect cfg s (payEffect e sh drop) = s := by
+      intro s sh drop; rw [runEffect_pay, hf]
+    have hz : (evDelta e).1 = 0 ∧ (evDelta e).2 = 0 := by
+      have : evDelta e = (0, 0) := hp
+      rw [this]; exact ⟨rfl, rfl⟩
+    rcases both_cases cfg (payEffect e) with ⟨_, hb⟩ | ⟨s2, _, _, hb⟩ <;>
+      simp only [hb, List.foldl_cons, List.foldl_nil, hid, hz.1, hz.2, mul_zero, add_zero, and_self]
+  | some f =>
+    rw [hf] at hp
+    have hp' : Adds f (evDelta e).1 (evDelta e).2 := hp
+    have hrun : ∀ s sh drop, runEffect cfg s (payEffect e sh drop) = shardApply cfg s.1 s.2 sh drop f := by
+      intro s sh drop; rw [runEffect_pay, hf]
+    have g1 : getMV (shardApply cfg st (evKey cfg e) (shard1 cfg) 0 f).1 a =
+        if a = addr1 cfg e then f (getMV st a) else getMV st a := by
+      have := shardApply_get cfg st (evKey cfg e) (shard1 cfg) 0 f a ha.1
+      simp only [not_dropped_zero, not_false_eq_true, true_and] at this
+      exact this
+    rcases both_cases cfg (payEffect e) with ⟨hs2, hb⟩ | ⟨s2, hs2, hne, hb⟩
+    · simp only [hb, List.foldl_cons, List.foldl_nil, hrun, hs2]
+      rw [g1]
+      have := two_step f _ _ hp' (getMV st a) (hnn a) (a = addr1 cfg e) False (fun h => h.2)
+      simpa using this
+    · simp only [hb, List.foldl_cons, List.foldl_nil, hrun, hs2]
+      have k1 : (shardApply cfg st (evKey cfg e) (shard1 cfg) 0 f).2 = keyAfter cfg (evKey cfg e) := shardApply_key _ _ _ _ _ _
+      rw [k1]
+      have g2 := shardApply_get cfg (shardApply cfg st (evKey cfg e) (shard1 cfg) 0 f).1 (keyAfter cfg (evKey cfg e)) s2
+        cfg.metric.shard2Ts f a ha.1
+      have g2' : getMV (shardApply cfg (shardApply cfg st (evKey cfg e) (shard1 cfg) 0 f).1 (keyAfter cfg (evKey cfg e)) s2
+          cfg.metric.shard2Ts f).1 a =
+          if ¬ applyDropped cfg (keyAfter cfg (evKey cfg e)) cfg.metric.shard2Ts ∧ a = addr2 cfg e s2
+          then f (getMV (shardApply cfg st (evKey cfg e) (shard1 cfg) 0 f).1 a)
+          else getMV (shardApply cfg st (evKey cfg e) (shard1 cfg) 0 f).1 a := g2
+      rw [g2', g1]
+      have hdiff : addr1 cfg e ≠ addr2 cfg e s2 := by
+        intro h; apply hne
+        have := congrArg Addr.shard h
+        simpa [addr1, addr2, applyAddr] using this.symm
+      exact two_step f _ _ hp' (getMV st a) (hnn a) (a = addr1 cfg e)
+        (¬ applyDropped cfg (keyAfter cfg (evKey cfg e)) cfg.metric.shard2Ts ∧ a = addr2 cfg e s2)
+        (fun h => hdiff (h.1.symm.trans h.2.2))
+
+
+
+theorem userAddr_of (a : Addr) (ha : UserAddr a) : a.metric ≠ statusMetricID ∧ a.metric ≠ noShardMetricID := ha
+
+/-- **One event, read through the store lookup.** For any store with non-negative counts, any event and any row address
+    of a metric other than the two status metrics: the row's count and sum change by exactly `rowDelta` — nothing if the
+    event is rejected; if it is accepted, `evDelta` (count = counter if present, else #values + Σ histogram weights /
+    #uniques; sum = Σ v·w · count / total) at the event's row in the metric's shard, and once more at the copy in the
+    second shard when one is configured and the timestamp is not before `ShardFixedKey2Timestamp`. Every other row
+    of every user metric is untouched. -/
+theorem applyEvent_row (cfg : Cfg) (st : Store) (e : Event) (a : Addr) (wf : WF e) (ha : UserAddr a) (hnn : NN st) :
+    (getMV (applyEvent cfg st e) a).cnt = (getMV st a).cnt + (rowDelta cfg e a).1 ∧
+    (getMV (applyEvent cfg st e) a).sum = (getMV st a).sum + (rowDelta cfg e a).2 := by
+  unfold rowDelta
+  by_cases hv : verdict cfg e = 0
+  · simp only [hv, ne_eq, not_true_eq_false, if_false]
+    obtain ⟨heff, _, _⟩ := accepted_effects cfg e wf hv
+    have hz := (verdict_zero_iff cfg e wf).1 hv
+    have hkm : keyMetric cfg e = cfg.metric.id := by simp [keyMetric, hz.2.1]
+    unfold applyEvent
+    simp only [heff, List.foldl_append]
+    have hpre : ∀ x ∈ statusBoth cfg (ktGetI (header cfg.mapping e).ktags 0) cfg.metric.id stOKCached (header cfg.mapping e).statusTagKey "-" ++
+        warnings cfg (header cfg.mapping e) (ktGetI (header cfg.mapping e).ktags 0) cfg.metric.id, IsBuiltinStatus x := by
+      intro x hx
+      rcases List.mem_append.1 hx with hx | hx
+      · exact statusBoth_builtin _ _ _ _ _ _ x hx
+      · exact warnings_builtin _ _ _ _ x hx
+    rw [← List.foldl_append] at *
+    simp only [List.foldl_append]
+    set s0 : Store × EvKey := (st, { metric := keyMetric cfg e, ts := eventTs cfg e, ktags := (header cfg.mapping e).ktags }) with hs0
+    set s1 := (statusBoth cfg (ktGetI (header cfg.mapping e).ktags 0) cfg.metric.id stOKCached (header cfg.mapping e).statusTagKey "-" ++
+        warnings cfg (header cfg.mapping e) (ktGetI (header cfg.mapping e).ktags 0) cfg.metric.id).foldl (runEffect cfg) s0 with hs1
+    have hg := foldl_status_get cfg _ s0 a ha hpre
+    have hkey : s1.2 = evKey cfg e := by rw [hs1, hg.2]; rfl
+    have hnn1 : NN s1.1 := foldl_NN cfg _ s0 hnn
+    have hs1' : s1 = (s1.1, evKey cfg e) := by rw [← hkey]
+    rw [List.foldl_append] at hs1
+    rw [← hs1, hs1']
+    obtain ⟨p1, p2⟩ := payload_get cfg e s1.1 a ha hnn1
+    have hga : getMV s1.1 a = getMV st a := by
+      have := (foldl_status_get cfg _ s0 a ha hpre).1
+      rw [List.foldl_append] at this
+      rw [hs1]; exact this
+    rw [p1, p2, hga]
+    exact ⟨rfl, rfl⟩
+  · simp only [hv, ne_eq, not_false_eq_true, if_true, add_zero]
+    obtain ⟨env, tagKey, str, he⟩ := rejected_effects cfg e hv
+    unfold applyEvent
+    simp only [he]
+    have := (foldl_status_get cfg _ (st, { metric := keyMetric cfg e, ts := eventTs cfg e, ktags := (header cfg.mapping e).ktags }) a ha
+      (rejectionRecords_builtin cfg e env tagKey str)).1
+    rw [this]
+    exact ⟨rfl, rfl⟩
+
+theorem applyAll_cons (cfg : Cfg) (st : Store) (e : Event) (es : List Event) :
+    applyAll cfg st (e :: es) = applyAll cfg (applyEvent cfg st e) es := rfl
+
+theorem applyAll_NN (cfg : Cfg) (st : Store) (evs : List Event) (h : NN st) : NN (applyAll cfg st evs) := by
+  induction evs generalizing st with
+  | nil => exact h
+  | cons e es ih => exact ih _ (applyEvent_NN cfg st e h)
+
+/-- **Every event sequence, every row (exact arithmetic).** After feeding any list of events to any store with
+    non-negative counts, the row of each (shard, metric, timestamp, tags, string-top) of a user metric has
+    count = old count + Σ over the events of their `rowDelta` count, and sum = old sum + Σ of their `rowDelta` sum:
+    only accepted events addressed to that row appear in the sums, each with count "counter if present, else
+    #values + Σ weights" and sum "Σ v·w scaled by count/total". -/
+theorem applyAll_row (cfg : Cfg) (st : Store) (evs : List Event) (a : Addr)
+    (hwf : ∀ e ∈ evs, WF e) (ha : UserAddr a) (hnn : NN st) :
+    (getMV (applyAll cfg st evs) a).cnt = (getMV st a).cnt + (evs.map (fun e => (rowDelta cfg e a).1)).sum ∧
+    (getMV (applyAll cfg st evs) a).sum = (getMV st a).sum + (evs.map (fun e => (rowDelta cfg e a).2)).sum := by
+  induction evs generalizing st with
+  | nil => simp [applyAll]
+  | cons e es ih =>
+    rw [applyAll_cons]
+    obtain ⟨i1, i2⟩ := ih (applyEvent cfg st e) (fun x hx => hwf x (List.mem_cons_of_mem _ hx)) (applyEvent_NN cfg st e hnn)
+    obtain ⟨r1, r2⟩ := applyEvent_row cfg st e a (hwf e List.mem_cons_self) ha hnn
+    rw [i1, i2, r1, r2]
+    simp only [List.map_cons, List.sum_cons]
+    constructor <;> ring
+
+/-- from an empty agent: the row holds exactly the sums over the accepted events addressed to it -/
+theorem applyAll_row_from_empty (cfg : Cfg) (evs : List Event) (a : Addr) (hwf : ∀ e ∈ evs, WF e) (ha : UserAddr a) :
+    (getMV (applyAll cfg [] evs) a).cnt = (evs.map (fun e => (rowDelta cfg e a).1)).sum ∧
+    (getMV (applyAll cfg [] evs) a).sum = (evs.map (fun e => (rowDelta cfg e a).2)).sum := by
+  obtain ⟨h1, h2⟩ := applyAll_row cfg [] evs a hwf ha NN_nil
+  rw [h1, h2]; simp [getMV]
+
+
+
+/-! #### the second shard's copy lands in the Tail of the row without string top -/
+
+theorem find_filter_none (l : KeyTags) (i : Nat) : (l.filter (fun p => p.1 != i)).find? (fun p => p.1 == i) = none := by
+  rw [List.find?_eq_none]
+  intro x hx
+  have := (List.mem_filter.1 hx).2
+  simpa using this
+
+theorem keyAfter_noTop (cfg : Cfg) (k : EvKey) : (keyAfter cfg k).noTop = k.noTop := by
+  unfold keyAfter EvKey.noTop; simp [List.filter_filter]
+
+theorem keyAfter_top (cfg : Cfg) (k : EvKey) : (keyAfter cfg k).top = (0, "-") := by
+  unfold keyAfter EvKey.top EvKey.noTop ktGetI ktGetS
+  simp only [find_filter_none]
+
+/-- **Second-shard copy.** The copy of an accepted event written to the metric's second shard goes to the *Tail* of the
+    row keyed by the event's tags without the string-top tag — whatever the event's string-top value was — at the
+    timestamp obtained by resolving the already resolved timestamp once more. (The first shard's call removed the
+    string-top tag from the shared key.) -/
+theorem addr2_eq (cfg : Cfg) (e : Event) (s2 : Nat) :
+    addr2 cfg e s2 =
+      ⟨s2, keyMetric cfg e,
+       (resolveTs cfg.now cfg.metric.res (resolveTs cfg.now cfg.metric.res (eventTs cfg e)).1).1,
+       (evKey cfg e).noTop, (0, "-")⟩ := by
+  unfold addr2 applyAddr
+  rw [keyAfter_noTop, keyAfter_top]
+  rfl
+
+theorem addr1_eq (cfg : Cfg) (e : Event) :
+    addr1 cfg e =
+      ⟨shard1 cfg, keyMetric cfg e, (resolveTs cfg.now cfg.metric.res (eventTs cfg e)).1, (evKey cfg e).noTop, normTop (evKey cfg e).top⟩ := rfl
+
+/-! #### status records at store level -/
+
+/-- 1 if the status record `x` is written (not dropped) to address `a`, else 0 -/
+def statusHit (cfg : Cfg) (a : Addr) : Effect → Rat
+  | .status sh m res tags str drop =>
+    if ¬ ((resolveTs cfg.now res 0).1 < drop) ∧ a = statusAddr cfg sh m res 0 tags str then 1 else 0
+  | _ => 0
+
+theorem addCount_one_cnt (mv : MV) (h : 0 ≤ mv.cnt) : (addCount 1 mv).cnt = mv.cnt + 1 :=
+  addCount_cnt 1 mv (by norm_num) h
+
+/-- a run of status records: every readable count grows by exactly the number of records written to it -/
+theorem foldl_status_cnt (cfg : Cfg) (effs : List Effect) (s : Store × EvKey) (a : Addr) (hnn : NN s.1)
+    (h : ∀ x ∈ effs, x.isStatus = true) :
+    (getMV (effs.foldl (runEffect cfg) s).1 a).cnt = (getMV s.1 a).cnt + (effs.map (statusHit cfg a)).sum := by
+  induction effs generalizing s with
+  | nil => simp
+  | cons x xs ih =>
+    simp only [List.foldl_cons, List.map_cons, List.sum_cons]
+    rw [ih _ (runEffect_NN cfg s x hnn) (fun y hy => h y (List.mem_cons_of_mem _ hy))]
+    have hx := h x List.mem_cons_self
+    cases x with
+    | status sh m res tags str drop =>
+      simp only [runEffect, statusHit]
+      rw [addStatus_get]
+      by_cases hc : ¬ ((resolveTs cfg.now res 0).1 < drop) ∧ a = statusAddr cfg sh m res 0 tags str
+      · simp only [hc, and_self, not_false_eq_true, if_true]
+        rw [addCount_one_cnt _ (hnn _)]; ring
+      · simp only [hc, if_false]; ring
+    | counter => simp [Effect.isStatus] at hx
+    | values => simp [Effect.isStatus] at hx
+    | unique => simp [Effect.isStatus] at hx
+
+/-- **Rejected events at store level: exactly one status record, in the right shard(s).** For any store with
+    non-negative counts and every address `a`: after ApplyMetric of a rejected event the count read at `a` has grown by
+    the number of rejection records written to `a` — the records being the single record with the verdict as status in
+    the metric's shard (shard 0 of the no-shard metric when the metric is unknown or cannot be sharded) and its copy in a
+    configured second shard. In particular the sum over all addresses grows by 1 (or 2 with a second shard). -/
+theorem rejected_status_store (cfg : Cfg) (st : Store) (e : Event) (hnn : NN st) (hv : verdict cfg e ≠ 0) :
+    ∃ env tagKey str, ∀ a : Addr,
+      (getMV (applyEvent cfg st e) a).cnt =
+        (getMV st a).cnt + ((rejectionRecords cfg e env tagKey str).map (statusHit cfg a)).sum := by
+  obtain ⟨env, tagKey, str, he⟩ := rejected_effects cfg e hv
+  refine ⟨env, tagKey, str, fun a => ?_⟩
+  unfold applyEvent
+  simp only [he]
+  apply foldl_status_cnt _ _ _ _ hnn
+  intro x hx
+  obtain ⟨_, _, _, _, _, _, rfl, _⟩ := rejectionRecords_builtin cfg e env tagKey str x hx
+  rfl
+
+/-- the primary rejection record is never dropped and carries the verdict: its row grows by exactly 1 when no second
+    shard is configured -/
+theorem rejected_primary_record (cfg : Cfg) (st : Store) (e : Event) (hnn : NN st) (hv : verdict cfg e ≠ 0)
+    (h2 : shard2 cfg = none) :
+    ∃ p : Addr, (p.metric = statusMetricID ∨ p.metric = noShardMetricID) ∧ ktGetI p.ktags 2 = verdict cfg e ∧
+      (getMV (applyEvent cfg st e) p).cnt = (getMV st p).cnt + 1 ∧
+      ∀ a : Addr, a ≠ p → (getMV (applyEvent cfg st e) a).cnt = (getMV st a).cnt := by
+  obtain ⟨env, tagKey, str, hall⟩ := rejected_status_store cfg st e hnn hv
+  have hcode : ∀ (a b c d : Int) (l : List Int), c ≠ 0 → ktGetI (tagsOfList 0 (a :: b :: c :: d :: l)) 2 = c := by
+    intro a b c d l hc
+    by_cases ha : a = 0 <;> by_cases hb : b = 0 <;> simp [tagsOfList, ktGetI, ha, hb, hc]
+  unfold rejectionRecords at hall
+  by_cases hc : e.hasMeta = true ∧ shardOk cfg = true
+  · simp only [hc, and_self, if_true, statusBoth, both, h2] at hall
+    refine ⟨statusAddr cfg (shard1 cfg) statusMetricID statusMetricRes 0 (stTags env (keyMetric cfg e) (verdict cfg e) tagKey) str,
+      Or.inl rfl, ?_, ?_, ?_⟩
+    · exact hcode _ _ _ _ _ hv
+    · rw [hall]; simp [statusHit]
+    · intro a ha; rw [hall]; simp [statusHit, ha]
+  · simp only [hc, if_false] at hall
+    refine ⟨statusAddr cfg 0 noShardMetricID noShardMetricRes 0 [env, keyMetric cfg e, verdict cfg e, tagKey] str,
+      Or.inr rfl, ?_, ?_, ?_⟩
+    · exact hcode _ _ _ _ _ hv
+    · rw [hall]; simp [statusHit]
+    · intro a ha; rw [hall]; simp [statusHit, ha]
+
+
+
+theorem ktGetI_tagsOfList (l : List Int) (i j : Nat) :
+    ktGetI (tagsOfList i l) j = if i ≤ j then l.getD (j - i) 0 else 0 := by
+  induction l generalizing i with
+  | nil => simp [tagsOfList, ktGetI]
+  | cons v r ih =>
+    unfold tagsOfList
+    by_cases hv : v = 0
+    · simp only [hv, beq_self_eq_true, if_true]
+      rw [ih (i + 1)]
+      by_cases h1 : i + 1 ≤ j
+      · have : i ≤ j := by omega
+        have e : j - i = (j - (i + 1)) + 1 := by omega
+        simp [h1, this, e]
+      · by_cases h2 : i ≤ j
+        · have : j = i := by omega
+          subst this; simp
+        · simp [h1, h2]
+    · have hv' : (v == 0) = false := by simpa using hv
+      simp only [hv', Bool.false_eq_true, if_false]
+      unfold ktGetI
+      by_cases hij : i = j
+      · subst hij; simp
+      · have hb : (i == j) = false := by simpa using hij
+        simp only [List.find?, hb]
+        have := ih (i + 1)
+        unfold ktGetI at this
+        rw [this]
+        by_cases h1 : i + 1 ≤ j
+        · have : i ≤ j := by omega
+          have e : j - i = (j - (i + 1)) + 1 := by omega
+          simp [h1, this, e]
+        · have : ¬ i ≤ j := by omega
+          simp [h1, this]
+
+/-- status tag (tag 2) of the row at an address -/
+def codeOf (a : Addr) : Int := ktGetI a.ktags 2
+
+/-- a status record can only hit an address of its own shard, metric and status code -/
+theorem statusHit_ne_zero (cfg : Cfg) (a : Addr) (x : Effect) (h : statusHit cfg a x ≠ 0) :
+    x.isStatus = true ∧ codeOf a = x.code ∧ a.shard = x.shard := by
+  cases x with
+  | status sh m res tags str drop =>
+    simp only [statusHit] at h
+    split at h
+    · rename_i hc
+      refine ⟨rfl, ?_, ?_⟩
+      · rw [hc.2]; simp [codeOf, statusAddr, ktGetI_tagsOfList, Effect.code]
+      · rw [hc.2]; rfl
+    · exact absurd rfl h
+  | counter => exact absurd rfl h
+  | values => exact absurd rfl h
+  | unique => exact absurd rfl h
+
+/-- Shard.Apply* of a user-metric key never touches a status row, except the clamped-future warning -/
+theorem shardApply_get_status (cfg : Cfg) (st : Store) (k : EvKey) (sh drop : Nat) (f : MV → MV) (a : Addr)
+    (hm : a.metric ≠ k.metric) (hc : codeOf a ≠ stWarnTimestampClampedFuture) :
+    getMV (shardApply cfg st k sh drop f).1 a = getMV st a := by
+  unfold shardApply
+  simp only
+  split
+  · rfl
+  · have hne : a ≠ ⟨sh, k.metric, (resolveTs cfg.now cfg.metric.res k.ts).1, k.noTop, normTop k.top⟩ := by
+      intro h; apply hm; rw [h]
+    split
+    · rw [addStatus_get]
+      have : a ≠ statusAddr cfg sh statusMetricID statusMetricRes (resolveTs cfg.now cfg.metric.res k.ts).1
+          (clampedTags { k with ts := (resolveTs cfg.now cfg.metric.res k.ts).1, ktags := k.noTop }) "-" := by
+        intro h; apply hc; rw [h]; simp [codeOf, statusAddr, clampedTags, ktGetI_tagsOfList]
+      simp only [this, and_false, if_false]
+      exact getMV_storeUpd_other _ _ _ _ _ _ _ _ hne
+    · exact getMV_storeUpd_other _ _ _ _ _ _ _ _ hne
+
+theorem payload_get_status (cfg : Cfg) (e : Event) (s : Store × EvKey) (a : Addr)
+    (hm : a.metric ≠ s.2.metric) (hc : codeOf a ≠ stWarnTimestampClampedFuture) :
+    getMV ((payload cfg e).foldl (runEffect cfg) s).1 a = getMV s.1 a := by
+  rw [payload_eq]
+  have step : ∀ (s : Store × EvKey) sh drop, a.metric ≠ s.2.metric →
+      getMV (runEffect cfg s (payEffect e sh drop)).1 a = getMV s.1 a ∧ (runEffect cfg s (payEffect e sh drop)).2.metric = s.2.metric := by
+    intro s sh drop hm
+    rw [runEffect_pay]
+    cases payFn cfg.metric.pct e with
+    | none => exact ⟨rfl, rfl⟩
+    | some f => exact ⟨shardApply_get_status _ _ _ _ _ _ _ hm hc, by rw [shardApply_key]; rfl⟩
+  rcases both_cases cfg (payEffect e) with ⟨_, hb⟩ | ⟨s2, _, _, hb⟩
+  · simp only [hb, List.foldl_cons, List.foldl_nil]; exact (step s _ _ hm).1
+  · simp only [hb, List.foldl_cons, List.foldl_nil]
+    obtain ⟨g1, k1⟩ := step s (shard1 cfg) 0 hm
+    rw [(step _ s2 cfg.metric.shard2Ts (by rw [k1]; exact hm)).1, g1]
+
+/-- **Accepted events at store level, status rows.** For a store with non-negative counts, an accepted event of a
+    user metric and any address `a` of a status metric whose status tag is not "clamped future": the count read at `a`
+    grows by the number of ok/warning records written to `a`. -/
+theorem accepted_status_store (cfg : Cfg) (st : Store) (e : Event) (a : Addr) (wf : WF e) (hu : UserMetric cfg) (hnn : NN st)
+    (hv : verdict cfg e = 0) (ha : a.metric = statusMetricID ∨ a.metric = noShardMetricID)
+    (hc : codeOf a ≠ stWarnTimestampClampedFuture) :
+    let h := header cfg.mapping e
+    let env := ktGetI h.ktags 0
+    (getMV (applyEvent cfg st e) a).cnt = (getMV st a).cnt +
+      ((statusBoth cfg env cfg.metric.id stOKCached h.statusTagKey "-" ++ warnings cfg h env cfg.metric.id).map (statusHit cfg a)).sum := by
+  intro h env
+  obtain ⟨heff, hw, _⟩ := accepted_effects cfg e wf hv
+  have hz := (verdict_zero_iff cfg e wf).1 hv
+  have hkm : keyMetric cfg e = cfg.metric.id := by simp [keyMetric, hz.2.1]
+  unfold applyEvent
+  simp only []
+  rw [heff, List.foldl_append]
+  have hpre : ∀ x ∈ statusBoth cfg env cfg.metric.id stOKCached h.statusTagKey "-" ++ warnings cfg h env cfg.metric.id,
+      IsBuiltinStatus x := by
+    intro x hx
+    rcases List.mem_append.1 hx with hx | hx
+    · exact statusBoth_builtin _ _ _ _ _ _ x hx
+    · exact warnings_builtin _ _ _ _ x hx
+  have hst : ∀ x ∈ statusBoth cfg env cfg.metric.id stOKCached h.statusTagKey "-" ++ warnings cfg h env cfg.metric.id,
+      x.isStatus = true := by
+    intro x hx; obtain ⟨_, _, _, _, _, _, rfl, _⟩ := hpre x hx; rfl
+  set s0 : Store × EvKey := (st, { metric := keyMetric cfg e, ts := eventTs cfg e, ktags := (header cfg.mapping e).ktags })
+  have hkey := foldl_status_key cfg _ s0 hpre
+  rw [payload_get_status cfg e _ a (by
+      rw [hkey]; show a.metric ≠ keyMetric cfg e
+      rw [hkm]; rcases ha with ha | ha <;> rw [ha] <;> [exact hu.1.symm; exact hu.2.symm]) hc]
+  exact foldl_status_cnt cfg _ s0 a hnn hst
+
+
+
+theorem sum_map_zero {α : Type} (l : List α) (f : α → Rat) (h : ∀ x ∈ l, f x = 0) : (l.map f).sum = 0 := by
+  induction l with
+  | nil => rfl
+  | cons x xs ih =>
+    simp only [List.map_cons, List.sum_cons, h x List.mem_cons_self, zero_add]
+    exact ih (fun y hy => h y (List.mem_cons_of_mem _ hy))
+
+/-- **No error status for an accepted event.** Any status row whose status tag is neither "ok", a warning nor
+    "clamped future" reads exactly the same count after an accepted event. -/
+theorem accepted_no_error_status (cfg : Cfg) (st : Store) (e : Event) (a : Addr) (wf : WF e) (hu : UserMetric cfg) (hnn : NN st)
+    (hv : verdict cfg e = 0) (ha : a.metric = statusMetricID ∨ a.metric = noShardMetricID)
+    (hc : codeOf a ≠ stWarnTimestampClampedFuture) (hok : codeOf a ≠ stOKCached) (hw : isWarnCode (codeOf a) = false) :
+    (getMV (applyEvent cfg st e) a).cnt = (getMV st a).cnt := by
+  rw [accepted_status_store cfg st e a wf hu hnn hv ha hc]
+  rw [sum_map_zero]
+  · ring
+  · intro x hx
+    by_contra hne
+    obtain ⟨_, hcode, _⟩ := statusHit_ne_zero cfg a x hne
+    rcases List.mem_append.1 hx with hx | hx
+    · exact hok (hcode.trans (statusBoth_all _ _ _ _ _ _ x hx).2)
+    · have := (warnings_all _ _ _ _ x hx).2
+      rw [← hcode, hw] at this; cases this
+
+/-- where the ok record of an accepted event lands in the metric's shard -/
+def okAddr (cfg : Cfg) (e : Event) : Addr :=
+  statusAddr cfg (shard1 cfg) statusMetricID statusMetricRes 0
+    (stTags (ktGetI (header cfg.mapping e).ktags 0) cfg.metric.id stOKCached (header cfg.mapping e).statusTagKey) "-"
+
+/-- **Exactly one ok record per accepted event** in the metric's shard: the ok row (status metric, tags
+    [env, metric, ok, tag key, agent]) grows by exactly 1 — neither warnings nor the second-shard copy nor the
+    contribution touch it. -/
+theorem accepted_ok_record (cfg : Cfg) (st : Store) (e : Event) (wf : WF e) (hu : UserMetric cfg) (hnn : NN st)
+    (hv : verdict cfg e = 0) :
+    (getMV (applyEvent cfg st e) (okAddr cfg e)).cnt = (getMV st (okAddr cfg e)).cnt + 1 := by
+  have hcode : codeOf (okAddr cfg e) = stOKCached := by
+    simp [codeOf, okAddr, statusAddr, stTags, ktGetI_tagsOfList]
+  rw [accepted_status_store cfg st e (okAddr cfg e) wf hu hnn hv (Or.inl rfl) (by rw [hcode]; decide)]
+  simp only [List.map_append, List.sum_append]
+  have hwz : ((warnings cfg (header cfg.mapping e) (ktGetI (header cfg.mapping e).ktags 0) cfg.metric.id).map
+      (statusHit cfg (okAddr cfg e))).sum = 0 := by
+    apply sum_map_zero
+    intro x hx
+    by_contra hne
+    obtain ⟨_, hc, _⟩ := statusHit_ne_zero cfg _ x hne
+    have := (warnings_all _ _ _ _ x hx).2
+    rw [← hc, hcode] at this
+    exact absurd this (by decide)
+  rw [hwz]
+  have h1 : statusHit cfg (okAddr cfg e) (Effect.status (shard1 cfg) statusMetricID statusMetricRes
+      (stTags (ktGetI (header cfg.mapping e).ktags 0) cfg.metric.id stOKCached (header cfg.mapping e).statusTagKey) "-" 0) = 1 := by
+    simp [statusHit, okAddr]
+  unfold statusBoth
+  rcases both_cases cfg (fun sh drop => Effect.status sh statusMetricID statusMetricRes
+      (stTags (ktGetI (header cfg.mapping e).ktags 0) cfg.metric.id stOKCached (header cfg.mapping e).statusTagKey) "-" drop)
+    with ⟨_, hb⟩ | ⟨s2, _, hne, hb⟩
+  · rw [hb]; simp only [List.map_cons, List.map_nil, List.sum_cons, List.sum_nil, h1]; ring
+  · rw [hb]; simp only [List.map_cons, List.map_nil, List.sum_cons, List.sum_nil, h1]
+    have h2 : statusHit cfg (okAddr cfg e) (Effect.status s2 statusMetricID statusMetricRes
+        (stTags (ktGetI (header cfg.mapping e).ktags 0) cfg.metric.id stOKCached (header cfg.mapping e).statusTagKey) "-"
+        cfg.metric.shard2Ts) = 0 := by
+      by_contra hx
+      obtain ⟨_, _, hs⟩ := statusHit_ne_zero cfg _ _ hx
+      exact hne (by simpa [okAddr, statusAddr, Effect.shard] using hs.symm)
+    rw [h2]; ring
+
+
+
+/-! #### all event sequences: error-status rows count the rejected events, once each -/
+
+/-- number of rejection records of event `e` written to address `a` (0 for an accepted event) -/
+def errHits (cfg : Cfg) (e : Event) (a : Addr) : Rat :=
+  if verdict cfg e = 0 then 0 else ((effects cfg e (header cfg.mapping e)).map (statusHit cfg a)).sum
+
+/-- an address of a status row that carries an error status (not ok, not a warning, not clamped-future) -/
+def ErrAddr (a : Addr) : Prop :=
+  (a.metric = statusMetricID ∨ a.metric = noShardMetricID) ∧ codeOf a ≠ stWarnTimestampClampedFuture ∧
+  codeOf a ≠ stOKCached ∧ isWarnCode (codeOf a) = false
+
+theorem applyEvent_error_status (cfg : Cfg) (st : Store) (e : Event) (a : Addr) (wf : WF e) (hu : UserMetric cfg) (hnn : NN st)
+    (ha : ErrAddr a) : (getMV (applyEvent cfg st e) a).cnt = (getMV st a).cnt + errHits cfg e a := by
+  unfold errHits
+  by_cases hv : verdict cfg e = 0
+  · simp only [hv, if_true, add_zero]
+    exact accepted_no_error_status cfg st e a wf hu hnn hv ha.1 ha.2.1 ha.2.2.1 ha.2.2.2
+  · simp only [hv, if_false]
+    unfold applyEvent
+    exact foldl_status_cnt cfg _ _ a hnn (fun x hx => ((rejected_record_count cfg e hv).1 x hx).1)
+
+/-- **Every event sequence accounts for every rejected event exactly once.** After any list of events on any store
+    with non-negative counts, every error-status row reads: old count + the number of rejection records addressed to
+    it — one per rejected event in the metric's shard (plus the copy for a configured second shard), none for accepted
+    events. -/
+theorem applyAll_error_status (cfg : Cfg) (st : Store) (evs : List Event) (a : Addr)
+    (hwf : ∀ e ∈ evs, WF e) (hu : UserMetric cfg) (hnn : NN st) (ha : ErrAddr a) :
+    (getMV (applyAll cfg st evs) a).cnt = (getMV st a).cnt + (evs.map (fun e => errHits cfg e a)).sum := by
+  induction evs generalizing st with
+  | nil => simp [applyAll]
+  | cons e es ih =>
+    rw [applyAll_cons, ih _ (fun x hx => hwf x (List.mem_cons_of_mem _ hx)) (applyEvent_NN cfg st e hnn),
+      applyEvent_error_status cfg st e a (hwf e List.mem_cons_self) hu hnn ha]
+    simp only [List.map_cons, List.sum_cons]; ring
+
+/-! #### the boundary of "the event is not empty": histogram entries whose weights are all zero -/
+
+/-- a histogram-only event (no values, no uniques) whose weights are all exactly 0 -/
+def ZeroWeightHist (e : Event) : Prop :=
+  e.values = [] ∧ e.uniq = [] ∧ e.hist ≠ [] ∧ ∀ p ∈ e.hist, InRange p.1 ∧ p.2 = .fin 0
+
+theorem zeroWeight_total (e : Event) (h : ZeroWeightHist e) : histTotal e.values e.hist = 0 := by
+  rw [histTotal_eq, h.1]
+  have : (e.hist.map (fun p => p.2.toRat)).sum = 0 := by
+    have hz : ∀ p ∈ e.hist, p.2.toRat = 0 := fun p hp => by rw [(h.2.2.2 p hp).2]; rfl
+    generalize e.hist = l at hz
+    induction l with
+    | nil => rfl
+    | cons p ps ih =>
+      simp only [List.map_cons, List.sum_cons, hz p List.mem_cons_self, zero_add]
+      exact ih (fun q hq => hz q (List.mem_cons_of_mem _ hq))
+  simp [this]
+
+theorem zeroWeight_accepted (cfg : Cfg) (e : Event) (wf : WF e) (h : ZeroWeightHist e)
+    (hp : e.pre = 0) (hm : e.hasMeta = true) (hs : shardOk cfg = true) (ht : ∀ t ∈ e.tags, TagValid t)
+    (hc : ValidCount e.counter) : verdict cfg e = 0 := by
+  rw [verdict_zero_iff cfg e wf]
+  refine ⟨hp, hm, hs, ht, ?_, ?_, hc, ?_, ?_⟩
+  · simp [bothSet, h.2.1]
+  · have : e.hist.length ≠ 0 := by intro hl; exact h.2.2.1 (List.length_eq_zero_iff.1 hl)
+    simp [isEmptyEvent, this]
+  · rw [h.1]; intro v hv; cases hv
+  · intro p hp'
+    refine ⟨(h.2.2.2 p hp').1, ?_⟩
+    rw [(h.2.2.2 p hp').2]
+    exact ⟨0, rfl, le_refl _, le_of_lt maxF_pos⟩
+
+theorem zeroWeight_hist_len (e : Event) (h : ZeroWeightHist e) : e.hist.length + e.values.length ≠ 0 := by
+  intro hl
+  have : e.hist.length = 0 := by omega
+  exact h.2.2.1 (List.length_eq_zero_iff.1 this)
+
+/-- **Zero-weight histogram, absent counter: accepted, but contributes nothing.** The event passes validation (it is
+    not "empty": it has histogram entries) and gets an ok status, yet its effective count is 0, the shard returns
+    before touching anything and no row of any user metric is created or changed. -/
+theorem zeroWeight_counter_absent (cfg : Cfg) (st : Store) (e : Event) (wf : WF e) (h : ZeroWeightHist e)
+    (hp : e.pre = 0) (hm : e.hasMeta = true) (hs : shardOk cfg = true) (ht : ∀ t ∈ e.tags, TagValid t)
+    (hc : e.counter = .fin 0) :
+    verdict cfg e = 0 ∧ payFn cfg.metric.pct e = none ∧ (applyEvent cfg st e).filter keep = st.filter keep := by
+  have hv : verdict cfg e = 0 :=
+    zeroWeight_accepted cfg e wf h hp hm hs ht (by rw [hc]; exact ⟨0, rfl, le_refl _, le_of_lt maxF_pos⟩)
+  have hu : e.uniq.length = 0 := by rw [h.2.1]; rfl
+  have hpf : payFn cfg.metric.pct e = none := by
+    unfold payFn
+    simp only [hu, ne_eq, not_true_eq_false, if_false, zeroWeight_hist_len e h, not_false_eq_true, if_true,
+      zeroWeight_total e h, hc, XR.toRat, effCount, le_refl]
+  refine ⟨hv, hpf, ?_⟩
+  obtain ⟨heff, _, _⟩ := accepted_effects cfg e wf hv
+  unfold applyEvent
+  simp only []
+  rw [heff, List.foldl_append, payload_eq]
+  have hid : ∀ s sh drop, runEffect cfg s (payEffect e sh drop) = s := by
+    intro s sh drop; rw [runEffect_pay, hpf]
+  have hpay : ∀ s, (both cfg (payEffect e)).foldl (runEffect cfg) s = s := by
+    intro s
+    rcases both_cases cfg (payEffect e) with ⟨_, hb⟩ | ⟨s2, _, _, hb⟩ <;> simp [hb, hid]
+  rw [hpay]
+  apply foldl_status_keep
+  intro x hx
+  rcases List.mem_append.1 hx with hx | hx
+  · exact statusBoth_builtin _ _ _ _ _ _ x hx
+  · exact warnings_builtin _ _ _ _ x hx
+
+/-- some item of metric `m` exists -/
+def HasMetric (st : Store) (m : Int) : Prop := ∃ it ∈ st, it.metric = m
+
+theorem storeUpd_has (sh : Nat) (m : Int) (ts : Nat) (kt : KeyTags) (t : Int × Str) (f : MV → MV) (st : Store) :
+    HasMetric (storeUpd sh m ts kt t f st) m := by
+  induction st with
+  | nil => exact ⟨_, List.mem_singleton.2 rfl, upd_metric _ _ _⟩
+  | cons it r ih =>
+    unfold storeUpd
+    by_cases hsk : it.sameKey sh m ts kt = true
+    · simp only [hsk, if_true]
+      exact ⟨_, List.mem_cons_self, (upd_metric it t f).trans ((sameKey_iff _ _ _ _ _).1 hsk).2.1⟩
+    · simp only [hsk]
+      obtain ⟨x, hx, hxm⟩ := ih
+      exact ⟨x, List.mem_cons_of_mem _ hx, hxm⟩
+
+theorem storeUpd_keeps (sh : Nat) (m : Int) (ts : Nat) (kt : KeyTags) (t : Int × Str) (f : MV → MV) (st : Store) (m' : Int)
+    (h : HasMetric st m') : HasMetric (storeUpd sh m ts kt t f st) m' := by
+  obtain ⟨x, hx, hxm⟩ := h
+  induction st with
+  | nil => cases hx
+  | cons it r ih =>
+    unfold storeUpd
+    by_cases hsk : it.sameKey sh m ts kt = true
+    · simp only [hsk, if_true]
+      rcases List.mem_cons.1 hx with rfl | hx
+      · exact ⟨_, List.mem_cons_self, (upd_metric _ t f).trans hxm⟩
+      · exact ⟨x, List.mem_cons_of_mem _ hx, hxm⟩
+    · simp only [hsk]
+      rcases List.mem_cons.1 hx with rfl | hx
+      · exact ⟨_, List.mem_cons_self, hxm⟩
+      · obtain ⟨y, hy, hym⟩ := ih hx
+        exact ⟨y, List.mem_cons_of_mem _ hy, hym⟩
+
+theorem addStatus_keeps (cfg : Cfg) (st : Store) (sh : Nat) (m : Int) (res t : Nat) (tags : List Int) (str : Str) (drop : Nat) (m' : Int)
+    (h : HasMetric st m') : HasMetric (addStatus cfg st sh m res t tags str drop) m' := by
+  unfold addStatus; simp only; split
+  · exact h
+  · exact storeUpd_keeps _ _ _ _ _ _ _ _ h
+
+theorem shardApply_keeps (cfg : Cfg) (st : Store) (k : EvKey) (sh drop : Nat) (f : MV → MV) (m' : Int)
+    (h : HasMetric st m') : HasMetric (shardApply cfg st k sh drop f).1 m' := by
+  unfold shardApply; simp only; split
+  · exact h
+  · split
+    · exact addStatus_keeps _ _ _ _ _ _ _ _ _ _ (storeUpd_keeps _ _ _ _ _ _ _ _ h)
+    · exact storeUpd_keeps _ _ _ _ _ _ _ _ h
+
+theorem shardApply_has (cfg : Cfg) (st : Store) (k : EvKey) (sh : Nat) (f : MV → MV) :
+    HasMetric (shardApply cfg st k sh 0 f).1 k.metric := by
+  unfold shardApply; simp only
+  have : ¬ (resolveTs cfg.now cfg.metric.res k.ts).1 < 0 := by omega
+  simp only [this, if_false]
+  split
+  · exact addStatus_keeps _ _ _ _ _ _ _ _ _ _ (storeUpd_has _ _ _ _ _ _ _)
+  · exact storeUpd_has _ _ _ _ _ _ _
+
+/-- **Zero-weight histogram, counter present: accepted, and an *empty row* is created.** With a counter c > 0 the
+    effective count is c, so the shard creates the row, but MultiValue.ApplyValues returns at `totalCount <= 0`:
+    from an empty agent the metric gets a row, and every row of it reads count 0 and sum 0. -/
+theorem zeroWeight_counter_present (cfg : Cfg) (e : Event) (wf : WF e) (h : ZeroWeightHist e)
+    (hp : e.pre = 0) (hm : e.hasMeta = true) (hs : shardOk cfg = true) (ht : ∀ t ∈ e.tags, TagValid t)
+    (c : Rat) (hc : e.counter = .fin c) (hpos : 0 < c) (hmax : c ≤ maxF) :
+    verdict cfg e = 0 ∧ HasMetric (applyEvent cfg [] e) cfg.metric.id ∧
+    ∀ a : Addr, UserAddr a → (getMV (applyEvent cfg [] e) a).cnt = 0 ∧ (getMV (applyEvent cfg [] e) a).sum = 0 := by
+  have hv : verdict cfg e = 0 :=
+    zeroWeight_accepted cfg e wf h hp hm hs ht (by rw [hc]; exact ⟨c, rfl, le_of_lt hpos, hmax⟩)
+  have hu : e.uniq.length = 0 := by rw [h.2.1]; rfl
+  have hcne : ¬ c = 0 := ne_of_gt hpos
+  have hcle : ¬ c ≤ 0 := by linarith
+  have hd : evDelta e = (0, 0) := by
+    unfold evDelta
+    simp only [hu, ne_eq, not_true_eq_false, if_false, zeroWeight_hist_len e h, not_false_eq_true, if_true,
+      zeroWeight_total e h, hc, XR.toRat, effCount, hcne, hcle, le_refl]
+  refine ⟨hv, ?_, ?_⟩
+  · have hpf : payFn cfg.metric.pct e = some (mvApplyValues cfg.metric.pct (valuePairs e.values e.hist) c 0) := by
+      unfold payFn
+      simp only [hu, ne_eq, not_true_eq_false, if_false, zeroWeight_hist_len e h, not_false_eq_true, if_true,
+        zeroWeight_total e h, hc, XR.toRat, effCount, hcne, hcle]
+    obtain ⟨heff, _, _⟩ := accepted_effects cfg e wf hv
+    have hkm : keyMetric cfg e = cfg.metric.id := by simp [keyMetric, hm]
+    unfold applyEvent
+    simp only []
+    rw [heff, List.foldl_append, payload_eq]
+    have hrun : ∀ s sh drop, runEffect cfg s (payEffect e sh drop) = shardApply cfg s.1 s.2 sh drop
+        (mvApplyValues cfg.metric.pct (valuePairs e.values e.hist) c 0) := by
+      intro s sh drop; rw [runEffect_pay, hpf]
+    have hpre : ∀ x ∈ statusBoth cfg (ktGetI (header cfg.mapping e).ktags 0) cfg.metric.id stOKCached (header cfg.mapping e).statusTagKey "-" ++
+        warnings cfg (header cfg.mapping e) (ktGetI (header cfg.mapping e).ktags 0) cfg.metric.id, IsBuiltinStatus x := by
+      intro x hx
+      rcases List.mem_append.1 hx with hx | hx
+      · exact statusBoth_builtin _ _ _ _ _ _ x hx
+      · exact warnings_builtin _ _ _ _ x hx
+    generalize hs1 : (statusBoth cfg (ktGetI (header cfg.mapping e).ktags 0) cfg.metric.id stOKCached (header cfg.mapping e).statusTagKey "-" ++
+        warnings cfg (header cfg.mapping e) (ktGetI (header cfg.mapping e).ktags 0) cfg.metric.id).foldl (runEffect cfg)
+        (([] : Store), ({ metric := keyMetric cfg e, ts := eventTs cfg e, ktags := (header cfg.mapping e).ktags } : EvKey)) = s1
+    have hkey : s1.2.metric = cfg.metric.id := by
+      rw [← hs1, foldl_status_key cfg _ _ hpre]; exact hkm
+    have hfirst : HasMetric (shardApply cfg s1.1 s1.2 (shard1 cfg) 0
+        (mvApplyValues cfg.metric.pct (valuePairs e.values e.hist) c 0)).1 cfg.metric.id := by
+      rw [← hkey]; exact shardApply_has cfg s1.1 s1.2 (shard1 cfg) _
+    rcases both_cases cfg (payEffect e) with ⟨_, hb⟩ | ⟨s2, _, _, hb⟩
+    · simp only [hb, List.foldl_cons, List.foldl_nil, hrun]
+      exact hfirst
+    · simp only [hb, List.foldl_cons, List.foldl_nil, hrun]
+      exact shardApply_keeps _ _ _ _ _ _ _ hfirst
+  · intro a ha
+    obtain ⟨r1, r2⟩ := applyEvent_row cfg [] e a wf ha NN_nil
+    rw [r1, r2]
+    simp [rowDelta, hv, hd, getMV]
+
+
+
+/-! #### all sharding strategies (tags hash included): the sequence theorems for `applyEventH` -/
+
+def applyAllH (cfg : Cfg) (st : Store) (evs : List Event) : Store := evs.foldl (applyEventH cfg) st
+
+theorem effCfg_id (cfg : Cfg) (e : Event) : (effCfg cfg e).metric.id = cfg.metric.id := by
+  unfold effCfg; split <;> rfl
+
+theorem effCfg_user (cfg : Cfg) (e : Event) (hu : UserMetric cfg) : UserMetric (effCfg cfg e) := by
+  unfold UserMetric at *; rw [effCfg_id]; exact hu
+
+/-- for tags-hash sharding the event is routed to the observed hash shard, exactly like a fixed shard -/
+theorem effCfg_hash_shard (cfg : Cfg) (e : Event) (h4 : cfg.metric.strategy = 4) (hk : cfg.metric.fixedKey = 0)
+    (hlt : e.hashShard < cfg.nShards) : shardOk (effCfg cfg e) = true ∧ shard1 (effCfg cfg e) = e.hashShard := by
+  have : effCfg cfg e = { cfg with metric := { cfg.metric with strategy := 0, shardNum := e.hashShard } } := by
+    unfold effCfg; simp [h4, hk]
+  rw [this]
+  simp [shardOk, shard1, shardingShard, hk, hlt]
+
+theorem applyAllH_NN (cfg : Cfg) (st : Store) (evs : List Event) (h : NN st) : NN (applyAllH cfg st evs) := by
+  induction evs generalizing st with
+  | nil => exact h
+  | cons e es ih => exact ih _ (applyEvent_NN (effCfg cfg e) st e h)
+
+theorem applyAllH_same (cfg : Cfg) (evs : List Event) (a b : Store) (hu : UserMetric cfg) (h : SameRows a b) :
+    SameRows (applyAllH cfg a evs) (applyAllH cfg b evs) := by
+  induction evs generalizing a b with
+  | nil => exact h
+  | cons e es ih => exact ih _ _ (applyEvent_same (effCfg cfg e) a b e (effCfg_user cfg e hu) h)
+
+/-- `rejected_invisible` for every sharding strategy -/
+theorem rejected_invisible_H (cfg : Cfg) (st : Store) (evs : List Event) (hu : UserMetric cfg) :
+    (applyAllH cfg st evs).filter keep =
+      (applyAllH cfg st (evs.filter (fun e => decide (verdictH cfg e = 0)))).filter keep := by
+  induction evs generalizing st with
+  | nil => rfl
+  | cons e es ih =>
+    by_cases hv : verdictH cfg e = 0
+    · simp only [List.filter, hv, decide_true]
+      exact ih (applyEventH cfg st e)
+    · simp only [List.filter, hv, decide_false]
+      have h1 : SameRows (applyEventH cfg st e) st := rejected_contributes_nothing (effCfg cfg e) st e hv
+      have h2 := applyAllH_same cfg es _ _ hu h1
+      show (applyAllH cfg (applyEventH cfg st e) es).filter keep = _
+      rw [h2]; exact ih st
+
+/-- `applyAll_row` for every sharding strategy: each row of a user metric holds the old values plus the sums of the
+    `rowDelta`s of the events, each taken in the configuration the event is routed with -/
+theorem applyAllH_row (cfg : Cfg) (st : Store) (evs : List Event) (a : Addr)
+    (hwf : ∀ e ∈ evs, WF e) (ha : UserAddr a) (hnn : NN st) :
+    (getMV (applyAllH cfg st evs) a).cnt = (getMV st a).cnt + (evs.map (fun e => (rowDelta (effCfg cfg e) e a).1)).sum ∧
+    (getMV (applyAllH cfg st evs) a).sum = (getMV st a).sum + (evs.map (fun e => (rowDelta (effCfg cfg e) e a).2)).sum := by
+  induction evs generalizing st with
+  | nil => simp [applyAllH]
+  | cons e es ih =>
+    obtain ⟨i1, i2⟩ := ih (applyEventH cfg st e) (fun x hx => hwf x (List.mem_cons_of_mem _ hx)) (applyEvent_NN (effCfg cfg e) st e hnn)
+    obtain ⟨r1, r2⟩ := applyEvent_row (effCfg cfg e) st e a (hwf e List.mem_cons_self) ha hnn
+    show (getMV (applyAllH cfg (applyEventH cfg st e) es) a).cnt = _ ∧ (getMV (applyAllH cfg (applyEventH cfg st e) es) a).sum = _
+    rw [i1, i2]
+    unfold applyEventH
+    rw [r1, r2]
+    simp only [List.map_cons, List.sum_cons]
+    constructor <;> ring
+
+/-- `applyAll_error_status` for every sharding strategy -/
+theorem applyAllH_error_status (cfg : Cfg) (st : Store) (evs : List Event) (a : Addr)
+    (hwf : ∀ e ∈ evs, WF e) (hu : UserMetric cfg) (hnn : NN st) (ha : ErrAddr a) :
+    (getMV (applyAllH cfg st evs) a).cnt = (getMV st a).cnt + (evs.map (fun e => errHits (effCfg cfg e) e a)).sum := by
+  induction evs generalizing st with
+  | nil => simp [applyAllH]
+  | cons e es ih =>
+    have i := ih (applyEventH cfg st e) (fun x hx => hwf x (List.mem_cons_of_mem _ hx)) (applyEvent_NN (effCfg cfg e) st e hnn)
+    have r := applyEvent_error_status (effCfg cfg e) st e a (hwf e List.mem_cons_self) (effCfg_user cfg e hu) hnn ha
+    show (getMV (applyAllH cfg (applyEventH cfg st e) es) a).cnt = _
+    rw [i]; unfold applyEventH; rw [r]
+    simp only [List.map_cons, List.sum_cons]; ring
+
+/-! #### non-vacuity for the store-level theorems -/
+
+/-- the example event's row: shard 1, metric 7, second 1000, tag 1 = 11, Tail -/
+example : addr1 exCfg exEvent = ⟨1, 7, 1000, [(1, 11, "-")], (0, "-")⟩ := by decide +kernel
+example : UserAddr (addr1 exCfg exEvent) := by unfold UserAddr; decide +kernel
+example : evDelta exEvent = (8, 36) := by decide +kernel
+/-- both shard copies receive (8, 36); any other row receives nothing -/
+example : rowDelta exCfg exEvent (addr1 exCfg exEvent) = (8, 36) ∧ rowDelta exCfg exEvent (addr2 exCfg exEvent 2) = (8, 36) ∧
+    rowDelta exCfg exEvent ⟨0, 7, 1000, [(1, 11, "-")], (0, "-")⟩ = (0, 0) := by decide +kernel
+/-- a sequence: accepted, rejected (NaN), accepted ⇒ the row reads 16 / 72 -/
+example : (getMV (applyAll exCfg [] [exEvent, { exEvent with values := [ofBits 0x7ff8000000000000] }, exEvent]) (addr1 exCfg exEvent)).cnt = 16 ∧
+    (getMV (applyAll exCfg [] [exEvent, { exEvent with values := [ofBits 0x7ff8000000000000] }, exEvent]) (addr1 exCfg exEvent)).sum = 72 := by
+  decide +kernel
+/-- the error-status row of the rejected variant -/
+def exErrAddr : Addr := ⟨1, statusMetricID, 1000, [(1, 7, "-"), (2, stErrNanInfValue, "-"), (4, componentAgent, "-")], (0, "-")⟩
+example : ErrAddr exErrAddr := by unfold ErrAddr; decide +kernel
+example : errHits exCfg { exEvent with values := [ofBits 0x7ff8000000000000] } exErrAddr = 1 ∧ errHits exCfg exEvent exErrAddr = 0 := by
+  decide +kernel
+example : (getMV (applyAll exCfg [] [exEvent, { exEvent with values := [ofBits 0x7ff8000000000000] }, exEvent]) exErrAddr).cnt = 1 := by
+  decide +kernel
+/-- the ok row grows once per accepted event -/
+example : (getMV (applyAll exCfg [] [exEvent, { exEvent with values := [ofBits 0x7ff8000000000000] }, exEvent]) (okAddr exCfg exEvent)).cnt = 2 := by
+  decide +kernel
+
+/-- a histogram-only event with weight 0 -/
+def exZeroHist : Event := { exEvent with values := [], hist := [(ofBits 0x4018000000000000, ofBits 0)], counter := ofBits 0 }
+
+example : ZeroWeightHist exZeroHist := by
+  refine ⟨rfl, rfl, by decide, ?_⟩
+  intro p hp
+  have : p = (ofBits 0x4018000000000000, ofBits 0) := by simpa [exZeroHist] using hp
+  subst this
+  refine ⟨⟨6, by decide +kernel, ?_, ?_⟩, by decide +kernel⟩
+  · have := maxF_pos; linarith
+  · unfold maxF maxFloat32; norm_num
+example : verdict exCfg exZeroHist = 0 ∧ (applyEvent exCfg [] exZeroHist).filter keep = [] := by decide +kernel
+/-- … with counter 8 the empty rows appear (one per shard) -/
+example : ((applyEvent exCfg [] { exZeroHist with counter := ofBits 0x4020000000000000 }).filter keep).map
+    (fun it => (it.shard, it.tail.cnt)) = [(1, 0), (2, 0)] := by decide +kernel
+
+/-- tag "_s" = "abc" (string top, unmapped) -/
+def exTopTag : TagIn :=
+  { isEnv := false, metaIdx := some 47, rawKind := 0, legacy := false, keyNorm := some "5f73", keyHex := "3566", draft := false,
+    corrupted := false, valNorm := some "616263", valHex := "363136323633", raw := none, raw64 := none }
+
+/-- **Observation (outside the property).** With a second shard configured, the first shard files the event under its
+    string-top value, the second shard under the Tail: the two copies are different rows. -/
+example : (addr1 exCfg { exEvent with tags := [exTopTag] }).top = (0, "616263") ∧
+    (addr2 exCfg { exEvent with tags := [exTopTag] } 2).top = (0, "-") := by decide +kernel
+
+/-- tags-hash sharding: the event goes to the observed hash shard -/
+example : shard1 (effCfg { exCfg with metric := { exCfg.metric with strategy := 4 } } { exEvent with hashShard := 2 }) = 2 := by
+  decide +kernel
 
 
 end SH.Props.C12
